@@ -29,7 +29,8 @@ RULE_TEXT = ('runs = seeded random suites of 2..6 cases (disturbers: env in both
              'with --suite + every case alone beside exactly.suite (+ the sub-suite case). Non-trivial = at least one '
              'disturber ran before an observer in one of the runs; distinct = (case kinds and endings in order, suite '
              'phases, sub-suite phases, preprocessor).')
-REACH_PROBES = ['preprocessor_fails_for_one_case', 'suite_conf_status', 'suite_conf_actor', 'disturber_before_observer', 'disturber_ended_by_exception', 'disturber_ended_by_timeout',
+REACH_PROBES = ['case_with_own_conf_status', 'case_with_invalid_value_for_suite_instruction', 'stdin_disturbance',
+                'preprocessor_fails_for_one_case', 'suite_conf_status', 'suite_conf_actor', 'disturber_before_observer', 'disturber_ended_by_exception', 'disturber_ended_by_timeout',
                 'disturber_ended_by_hard_error', 'disturber_failing_cleanup', 'observer_foreign_symbol_reference',
                 'observer_same_symbol_names', 'suite_phase_setup', 'suite_phase_before_assert', 'suite_phase_assert',
                 'suite_phase_cleanup', 'sub_suite_case', 'suite_preprocessor', 'mode_suite_run', 'mode_permuted',
@@ -53,6 +54,7 @@ DISTURBANCES = [
     ('def string D_ONLY = d', ['noop']),
     ('file -rel-tmp junk.txt = "j"', ['noop']),
     ('file -rel-act junk-act.txt = "j"', ['noop']),
+    ('stdin = "leaked-stdin"', ['noop']),
 ]
 ENDS = ['pass', 'pass', 'fail', 'hard', 'timeout', 'cleanupfail', 'exception', 'validation']
 
@@ -81,6 +83,8 @@ def gen_case(g, cid, force_kind=None):
         n[0] += 1
         return {'k': 'fault', 'id': '%s%s%d' % (PFX[ph], cid, n[0])}
 
+    # every case includes the same file from [setup]; the file opens a further phase ([cleanup])
+    case['setup'].append({'k': 'real', 'text': 'including common.xly', 'fx': [['noop']]})
     case['setup'].append({'k': 'real', 'text': 'def string CASEVAL = val-%s' % cid, 'fx': [['noop']]})
     case['setup'].append({'k': 'real', 'text': 'def string CASELINE = %d' % caseline(cid), 'fx': [['noop']]})
     case['setup'].append(probe('setup', observe=True))
@@ -130,7 +134,15 @@ def gen_case(g, cid, force_kind=None):
         case['assert'].append({'k': 'real', 'text': 'exit-code == notAnInteger', 'fx': [['noop']], 'invalid': True})
     elif end == 'foreign_symbol':
         case['cleanup'].append({'k': 'real', 'text': 'file r.txt = @[D_ONLY]@', 'fx': [['noop']], 'invalid': True})
-    return {'id': cid, 'kind': kind, 'end': end, 'case': case, 'procs': procs, 'faults': faults}
+    # the case's own [conf]: must apply to this case only
+    own_status = g.choice([None, None, None, 'FAIL', 'SKIP'])
+    if own_status:
+        case['conf'].append({'k': 'real', 'text': 'status = %s' % own_status})
+    # a symbol that a suite-supplied [assert] instruction needs as an integer: one case in a while defines a non-integer
+    bad_int = g.random() < 0.12
+    case['setup'].append({'k': 'real', 'text': 'def string CASEINT = %s' % ('notAnInteger' if bad_int else '0'), 'fx': [['noop']]})
+    return {'id': cid, 'kind': kind, 'end': end, 'case': case, 'procs': procs, 'faults': faults, 'own_status': own_status,
+            'bad_int': bad_int}
 
 
 def total_runs(tier):
@@ -175,6 +187,9 @@ def effective_case(plan, c, suite_key):
     phases = plan['suite_phases'] if suite_key == 'root' else plan['sub']['phases']
     eff = copy.deepcopy(c['case'])
     procs = dict(c['procs'])
+    # the included file's [cleanup] part is added where the file is included: before the case's own cleanup
+    eff['cleanup'] = [{'k': 'probe', 'id': 'inc-cleanup', 'form': '%'}] + eff['cleanup']
+    procs['inc-cleanup'] = {'exit': 0}
     for ph in phases:
         ident = 'suite-%s-%s' % (suite_key, ph)
         item = {'k': 'probe', 'id': ident, 'form': '%'}
@@ -192,8 +207,10 @@ def effective_case(plan, c, suite_key):
 
 def case_plan(plan, c, suite_key):
     eff, procs = effective_case(plan, c, suite_key)
+    phases = plan['suite_phases'] if suite_key == 'root' else plan['sub']['phases']
     return {'case': eff, 'procs': procs, 'faults': c['faults'], 'status': 'PASS', 'act_mode': False, 'entry': 'cli',
-            'invalid': any(it.get('invalid') for ph in PHASES for it in eff[ph]),
+            'invalid': any(it.get('invalid') for ph in PHASES for it in eff[ph]) or
+            bool(c.get('bad_int') and 'assert' in phases),
             'fails': any(it.get('fails') for it in eff['assert'])}
 
 
@@ -227,6 +244,9 @@ def suite_text(plan, key, order=None):
     for ph in phases:
         # the suite's instructions are parsed once and shared by all cases: they refer to things that differ per case
         lines += ['[%s]' % ph, '%% suite-%s-%s %s' % (key, ph, SUITE_ARGS_SETUP if ph == 'setup' else SUITE_ARGS)]
+        if ph == 'assert':
+            # validated before execution, against the symbols of the case it is part of
+            lines += ['exit-code >= @[CASEINT]@']
         if ph != 'setup':
             # a value computed by a transformer from a per-case symbol reaches the child as its stdin
             lines += ['run %% suite-%s-%s-lines' % (key, ph),
@@ -343,6 +363,9 @@ def execute(plan, scratch):
         for ph in PHASES:
             procs['suite-%s-%s' % (k, ph)] = {'exit': 0}
             procs['suite-%s-%s-lines' % (k, ph)] = {'exit': 0}
+    w.write('home/common.xly', 'def string FROM_INCLUDED = i\n[cleanup]\n% inc-cleanup\n')
+    w.write('home/sub/common.xly', 'def string FROM_INCLUDED = i\n[cleanup]\n% inc-cleanup\n')
+    procs['inc-cleanup'] = {'exit': 0}
     w.write('home/lines.txt', 'l1\nl2\nl3\n')
     w.write('home/sub/lines.txt', 'l1\nl2\nl3\n')
     for c in cases:
@@ -445,6 +468,13 @@ def _probes(plan, hist):
             pr['observer_same_symbol_names'] = 1
             if c['end'] == 'foreign_symbol':
                 pr['observer_foreign_symbol_reference'] = 1
+    for c in cases:
+        if c.get('own_status'):
+            pr['case_with_own_conf_status'] = 1
+        if c.get('bad_int') and 'assert' in plan['suite_phases']:
+            pr['case_with_invalid_value_for_suite_instruction'] = 1
+        if any(it.get('text') == 'stdin = "leaked-stdin"' for it in c['case']['setup']):
+            pr['stdin_disturbance'] = 1
     for ph in plan['suite_phases']:
         pr['suite_phase_' + ph.replace('-', '_')] = 1
     if plan['sub']:
@@ -530,6 +560,13 @@ def oracle(plan, hist):
                 if events:
                     bad('case_that_cannot_be_preprocessed_executes_nothing', [], [e['id'] for e in events], case=cid, mode=mode)
                 continue
+            own = c.get('own_status')
+            if own == 'SKIP':
+                if rec['ident'] != 'SKIPPED':
+                    bad('outcome', 'SKIPPED', rec['ident'], case=cid, mode=mode)
+                if events:
+                    bad('skipped_case_executes_nothing', [], [e['id'] for e in events], case=cid, mode=mode)
+                continue
             if cp['invalid']:
                 if rec['ident'] != 'VALIDATION_ERROR':
                     bad('symbols_do_not_carry_over' if c['end'] == 'foreign_symbol' else 'outcome',
@@ -560,6 +597,11 @@ def oracle(plan, hist):
                 if x is None:
                     continue
                 if e['kind'] == 'spawn':
+                    if e['id'].endswith('-atc') or e['id'] == 'interp':
+                        texts = [it.get('text') for it in c['case']['setup']]
+                        want_stdin = 'leaked-stdin' if 'stdin = "leaked-stdin"' in texts else ''
+                        if e['stdin'] != want_stdin:
+                            bad('stdin_setting_does_not_carry_over', want_stdin, e['stdin'], case=cid, mode=mode)
                     if e['id'].endswith('-lines') and e['stdin'] != 'l%d\n' % caseline(cid):
                         bad('suite_instruction_sees_the_case_it_runs_in', {'stdin': 'l%d\n' % caseline(cid)},
                             {'stdin': e['stdin']}, case=cid, mode=mode, instruction='-transformed-by filter -line-nums @[CASELINE]@')
@@ -600,7 +642,7 @@ def oracle(plan, hist):
                 ok = {'FAIL'}
             else:
                 ok = {'PASS'}
-            if sc.get('status_fail'):
+            if own == 'FAIL' or (sc.get('status_fail') and own is None):
                 ok = {{'PASS': 'XPASS', 'FAIL': 'XFAIL'}.get(v, v) for v in ok}
             if rec['ident'] not in ok:
                 bad('outcome', sorted(ok), rec['ident'], case=cid, mode=mode)
